@@ -169,6 +169,8 @@ def authentication(E):
         item = E.call(AC, [a])
         full = E.call(E.getattr(item, 'serialize'), [])
         E.prove('content:simple_type_header_0x80_then_credentials', beq(E, full, W.cat(b'\x80', exp), 'c'))
+        E.prove('content:encoding_the_same_item_again_gives_the_same_bytes[simple]',
+                beq(E, E.call(E.getattr(item, 'serialize'), []), W.cat(b'\x80', exp), 'c1b'))
         item2 = E.call(AC, [])
         E.call(E.getattr(item2, 'parse'), [W.cat(b'\x80', exp)])
         E.prove('content:decodes_to_simple_with_same_credentials',
@@ -195,6 +197,8 @@ def authentication(E):
         item = E.call(AC, [a])
         full = E.call(E.getattr(item, 'serialize'), [])
         E.prove('content:bearer_type_header_0x81_then_token', beq(E, full, W.cat(b'\x81', tok), 'c'))
+        E.prove('content:encoding_the_same_item_again_gives_the_same_bytes[bearer]',
+                beq(E, E.call(E.getattr(item, 'serialize'), []), W.cat(b'\x81', tok), 'c1b'))
         item2 = E.call(AC, [])
         E.call(E.getattr(item2, 'parse'), [W.cat(b'\x81', tok)])
         E.prove('content:decodes_to_bearer_with_same_token', item2.attrs['authentication'].cls.name == 'AuthenticationBearer'
@@ -329,6 +333,13 @@ def stream_data_mimetype(E):
     lst = E.call(E.lookup(SD + 'StreamDataMimetypes'), [[wk, name, enum.members['TEXT_PLAIN'].value]])
     outl = E.call(E.getattr(lst, 'serialize'), [])
     E.prove('accept_mimetypes:entries_concatenated_in_order', beq(E, outl, W.cat(b'\x85', exp, b'\xa1'), 'l'))
+    # encodings are functions of the items' current content: again, and after the content changed
+    E.prove('data_mimetype:encoding_the_same_item_again_gives_the_same_bytes', beq(E, E.call(E.getattr(it, 'serialize'), []), exp, 'h2'))
+    E.prove('accept_mimetypes:encoding_the_same_item_again_gives_the_same_bytes',
+            beq(E, E.call(E.getattr(lst, 'serialize'), []), W.cat(b'\x85', exp, b'\xa1'), 'l2'))
+    E.setattr(it, 'data_encoding', wk.value)
+    E.prove('data_mimetype:re-encoding_after_the_type_changed_encodes_the_new_type[no stale result]',
+            lift_bytes(E.call(E.getattr(it, 'serialize'), [])).conc == b'\x85')
 
 
 SDP = SD + 'StreamDataMimetypes.parse'
@@ -409,6 +420,9 @@ def composite_serialize(E):
     out = E.call(E.lookup(H + 'composite'), items[:k])
     E.cover('serialized')
     E.prove('composite:entries_are_header_24bit_length_body_in_order', beq(E, out, W.cat(*encs[:k]) if k else b'', 'c'))
+    out_again = E.call(E.lookup(H + 'composite'), items[:k])
+    E.prove('composite:encoding_the_same_entries_again_gives_the_same_bytes[items keep no encoded state]',
+            beq(E, out_again, W.cat(*encs[:k]) if k else b'', 'c2'))
 
 
 @harness('c18.composite.parse.step', ['C18', 'C19'], functions=[CMP, X + 'composite_metadata.py::metadata_item_factory',
